@@ -70,6 +70,9 @@ func (q *qworld) qcb(cb string, ev int) func(res.QueryRequest) {
 			r.NotFound()
 		case "panic":
 			panic("boom")
+		case "panicnil":
+			var e *res.Error // typed nil
+			panic(e)
 		case "nothing":
 		case "timeout":
 			r.Timeout(5 * time.Second)
@@ -144,7 +147,7 @@ func init() {
 			}, sp
 		}})
 	}
-	for _, cb := range []string{"model", "events", "error", "notfound", "panic", "nothing", "timeout", "twice"} {
+	for _, cb := range []string{"model", "events", "error", "notfound", "panic", "panicnil", "nothing", "timeout", "twice"} {
 		mk("QE1-"+cb, cb, []string{"valid"}, false, false, 1)
 	}
 	mk("QE0", "model", nil, false, false, 1)
@@ -360,7 +363,7 @@ func JudgeQuery(qs *QSpec, r *vsched.Result) []string {
 			switch kind {
 			case "valid":
 				want = map[string]string{"model": `{"result":{"model":{"v":1}}}`, "events": `{"result":{"events":[{"event":"change","data":{"values":{"k":1}}}]}}`,
-					"error": `"error"`, "notfound": `system.notFound`, "panic": `system.internalError`, "nothing": `{"result":{"events":[]}}`,
+					"error": `"error"`, "notfound": `system.notFound`, "panic": `system.internalError`, "panicnil": `system.internalError`, "nothing": `{"result":{"events":[]}}`,
 					"timeout": `{"result":{"model":{"v":2}}}`, "twice": `{"result":{"model":{"v":1}}}`}[qs.CB]
 				if qs.CB == "timeout" && pre != 1 {
 					add("query request %s: %d pre-responses, want 1", reply, pre)
